@@ -25,7 +25,16 @@ func init() {
 			return append(st, crashStage("crashmg", "mgmt", "C07", 8, 1, 12, 1))
 		}}
 	plans["C19"] = Plan{Prop: "C19", Level: "exploration",
-		Rule:        "same management histories; at every op boundary (quiescent): each live dataset has exactly one live meta-entity in core.Dataset with its name, deleted / renamed-away names have none, and the items counter equals both the model's and the feed's distinct-id count. Non-trivial = an id was stored twice and a management op happened",
+		Rule:        "same management histories; at every op boundary (quiescent): each live dataset has exactly one live meta-entity in core.Dataset with its name, deleted / renamed-away names have none, and the items counter equals both the model's and the feed's distinct-id count. Non-trivial = an id was stored twice and a management op happened; second stage: the concurrent C05 workload (8 writers, transactions, scratch dataset create/delete) with the counters compared at the final quiescent point",
 		Assumptions: assumeStore,
-		Stages:      mgStages("C19", 16, 25, 16, 400)}
+		Stages: func(tier string) []Stage {
+			st := mgStages("C19", 16, 25, 16, 400)(tier)
+			// concurrent variant: writers, transactions and dataset create/delete all funnel their counter
+			// updates through core.Dataset; the counters are compared at the final quiescent point
+			n, c := 3, 2
+			if tier == "thorough" {
+				n, c = 8, 10
+			}
+			return append(st, Stage{Name: "conc", Scenario: "c05conc", Args: "props=C19", Children: n, Cases: c, GOMAXPROCS: 8, Env: []string{c05Hooks}, Timeout: 20 * time.Minute})
+		}}
 }
